@@ -690,11 +690,16 @@ class FieldsJson(FieldValueBase):
                     validator_class.get_canonical_name() not in raw_values):
                 raise InvalidValue(None, cls, attribute_name)
 
-        return cls(**{
-            attribute_name: raw_values[validator_class.get_canonical_name()]
-            for attribute_name, validator_class in attr_to_validator_type_dict.items()
-            if validator_class.get_canonical_name() in raw_values
-        }), len(parsable)
+        try:
+            parsed_object = cls(**{
+                attribute_name: raw_values[validator_class.get_canonical_name()]
+                for attribute_name, validator_class in attr_to_validator_type_dict.items()
+                if validator_class.get_canonical_name() in raw_values
+            })
+        except (TypeError, ValueError) as e:  # the JSON type of a member does not suit the component it belongs to
+            six.raise_from(InvalidValue(bytes(parsable).decode('ascii', 'replace'), cls, 'value'), e)
+
+        return parsed_object, len(parsable)
 
     def compose(self):
         attr_fields_dict = attr.fields_dict(type(self))
